@@ -216,6 +216,9 @@ def strat_unfocus(tier):
         'route': st.sampled_from(['fft', 'mdft', 'czt', 'mdft', 'czt']), 'via': st.sampled_from(['function', 'wavefront']),
         'shift': st.one_of(st.just([0, 0]), st.just([0, 0]), st.tuples(st.integers(-6, 6).map(lambda k: k / 2), st.integers(-6, 6).map(lambda k: k / 2)).map(list)),
         'fdtype': st.sampled_from(['complex128', 'complex128', 'float64', 'float32', 'bool']), 'fftbackend': U.fft_backends,
+        # history: the forward trip of the exchanged geometry first (a focus from a p x p pupil onto the m x m focal grid at the same Q value), on
+        # dyadic numbers so that the two Q values are the same float although the sample counts differ
+        'twin': st.one_of(st.none(), st.none(), st.none(), st.fixed_dictionaries({'m': st.sampled_from([4, 8, 16]), 'p': st.sampled_from([4, 8, 16]), 'Q': st.sampled_from([1.0, 2.0, 4.0, 0.5])})),
     })
 
 
@@ -232,6 +235,15 @@ def _check_unfocus_inner(case, ctx):
     from prysm import propagation as P
     _reset()
     fshape, pshape, dxf, lam, efl, route, via = (case[k] for k in ('fshape', 'pshape', 'dxf', 'wvl', 'efl', 'route', 'via'))
+    tw = case.get('twin')
+    if tw and route != 'fft':
+        fshape, pshape, dxf, lam, efl = [tw['m'], tw['m']], [tw['p'], tw['p']], 1.0, 0.5, 64.0
+        case = dict(case, Q=tw['Q'], at=[case['at'][0] % tw['m'], case['at'][1] % tw['m']])
+        ctx.label('history:twin-focus-first', 'twin:same-counts' if tw['m'] == tw['p'] else 'twin:other-counts')
+        dxp_ = lam * efl / (tw['m'] * dxf * tw['Q'])
+        dx_twin = lam * efl / (tw['p'] * dxf * tw['Q'])
+        ctx.call(P.focus_fixed_sampling, np.ones((tw['p'], tw['p']), dtype=complex), dx_twin, efl, lam, dxf, (tw['m'], tw['m']), shift=(0, 0), method=route)
+        del dxp_
     my, mx = fshape
     F = np.zeros((my, mx), dtype=complex)
     iy, ix = case['at'][0] % my, case['at'][1] % mx
